@@ -297,22 +297,31 @@ class SynEngine:
             if rng.random() < 0.3:
                 finder.get_cnf()
                 st.bump('get_cnf-before-constraints')
-            # a deliberately invalid constraint now and then (must be rejected, finder then dropped)
-            if internal and rng.random() < 0.08:
-                bad = rng.choice(('absent', 'nopred', 'order', 'wire-order'))
+            # a deliberately invalid constraint now and then: it must be rejected, and a rejected call imposes
+            # nothing - the caller catches the error and goes on with the same finder
+            if internal and rng.random() < 0.12:
+                bad = rng.choice(('absent', 'absent-pred', 'nopred', 'order', 'wire-order', 'wire-absent'))
+                gt = {'gate_type': self.GT[rng.choice(BIN_TYPES)]} if rng.random() < 0.6 else {}
                 try:
                     if bad == 'absent':
-                        finder.fix_gate(n + N + 3, first_predecessor=0)
+                        finder.fix_gate(n + N + 3, first_predecessor=0, **gt)
+                    elif bad == 'absent-pred':
+                        finder.fix_gate(internal[-1], first_predecessor=n + N + 5, **gt)
                     elif bad == 'nopred':
-                        finder.fix_gate(internal[-1])
+                        finder.fix_gate(internal[-1], **gt)
                     elif bad == 'order':
-                        finder.fix_gate(internal[-1], first_predecessor=internal[-1], second_predecessor=0)
-                    else:
+                        finder.fix_gate(internal[-1], first_predecessor=internal[-1], second_predecessor=0, **gt)
+                    elif bad == 'wire-order':
                         finder.forbid_wire(internal[-1], internal[0])
+                    else:
+                        finder.forbid_wire(0, n + N + 2)
                     self.ev['out'] = 'accepted-invalid'
+                    return
                 except Exception as e:  # noqa
-                    self.ev['out'] = f'rejected:{exc_name(e)}'
-                return
+                    if not is_instance_named(e, ('CircuitFinderError',)):
+                        self.ev['out'] = f'rejected-with:{exc_name(e)}'
+                        return
+                    st.bump(f'rejected-constraint-then-continued:{exc_name(e)}')
             for c in cons_calls:
                 if c[0] == 'fix_gate':
                     kw = {k: v for k, v in c[2].items() if not k.startswith('_')}
